@@ -504,6 +504,42 @@ def _law_case(case):
                 got_m = np.asarray(pipe.from_atoms(atoms, weights=wts, center=tuple(atoms.mean(0)))(scale))
                 case.check(got_m.shape == got_h.shape and np.allclose(got_m, got_h), "from_atoms(center=None) != "
                            "from_atoms(center=mean(atoms))", None, scale=scale)
+        # from_pdb: the ATOM records of a PDB file (Angstrom, x y z) are the atoms of from_atoms (nm, z y x) centred on
+        # their mean; other records are not atoms. Coordinates stay within +-99.999 so that every 8-column field
+        # starts with a blank.
+        import os as _os0, tempfile as _tf0
+        from scipy.spatial.transform import Rotation
+
+        for _try in range(20):
+            ang = np.round(rng.uniform(-40, 40, size=(na_, 3)) + rng.uniform(-50, 50, 3), 3)       # x, y, z in Angstrom
+            atoms_nm = (ang[:, ::-1].astype(np.float32) / 10).astype(np.float64)
+            co = (atoms_nm - atoms_nm.mean(0)) / scale
+            size_ = int(np.ceil(np.sqrt((co ** 2).sum(1)).max() * 2))
+            fi = co + size_ / 2
+            if size_ >= 2 and np.all(np.abs(fi - np.round(fi)) > 0.02) and np.all((fi > 0.02) & (fi < size_ - 0.02)):
+                fd_, pdb_path = _tf0.mkstemp(suffix=".pdb", prefix="c19_")
+                with _os0.fdopen(fd_, "w") as fh:
+                    fh.write("HEADER    TEST\nREMARK   1 ATOMS BELOW\n")
+                    for i_, (x_, y_, z_) in enumerate(ang):
+                        fh.write(f"ATOM  {i_ + 1:5d} {'CA':^4s} {'ALA':3s} A{i_ + 1:4d}    {x_:8.3f}{y_:8.3f}{z_:8.3f}{1.0:6.2f}{0.0:6.2f}           C\n")
+                        if i_ == 0:
+                            fh.write("TER\n")
+                    fh.write("END\n")
+                try:
+                    want_p = np.zeros((size_,) * 3)
+                    for f_ in np.floor(fi).astype(int):
+                        want_p[tuple(f_)] += 1
+                    got_p = np.asarray(pipe.from_pdb(pdb_path)(scale))
+                    case.check(got_p.shape == want_p.shape and np.allclose(got_p, want_p), "from_pdb is not the histogram of the "
+                               "ATOM records (Angstrom x,y,z -> nm z,y,x) centred on their mean", None, scale=scale,
+                               got=got_p.shape, want=want_p.shape)
+                    got_i = np.asarray(pipe.from_pdb(pdb_path, rotation=Rotation.identity())(scale))
+                    case.check(got_i.shape == got_p.shape and np.array_equal(got_i, got_p), "from_pdb with the identity "
+                               "rotation differs from from_pdb without rotation", None, scale=scale)
+                    case.count("pdb_providers")
+                finally:
+                    _os0.remove(pdb_path)
+                break
         # file providers: the voxel size comes from each file's own header (a numpy-only reader is registered for
         # the test suffix), from_files == [from_file ...], an explicit original_scale overrides every header
         import os as _os, tempfile as _tf, shutil as _sh
